@@ -26,6 +26,7 @@ use rustc_middle::mir::{
     Rvalue, StatementKind, TerminatorKind, UnOp,
 };
 use rustc_middle::ty::print::PrintTraitRefExt;
+use rustc_middle::ty::TypeVisitableExt;
 use rustc_middle::ty::{self, GenericArgKind, GenericArgsRef, Instance, Ty, TyCtxt, TypingEnv};
 use rustc_span::{ExpnKind, MacroKind, Span};
 use std::fmt::Write as _;
@@ -180,7 +181,16 @@ impl<'tcx> Cx<'tcx> {
             args.iter()
                 .filter_map(|a| match a.kind() {
                     GenericArgKind::Type(t) => Some(self.ty(t)),
-                    GenericArgKind::Const(c) => Some(J::O(vec![("k", s("const")), ("str", s(format!("{}", c)))])),
+                    GenericArgKind::Const(c) => {
+                        let mut o = vec![("k", s("const")), ("str", s(format!("{}", c)))];
+                        if let Some(v) = c.try_to_target_usize(self.tcx) {
+                            o.push(("value", J::I(v as i128)));
+                        }
+                        if let ty::ConstKind::Param(p) = c.kind() {
+                            o.push(("param", s(p.name.to_string())));
+                        }
+                        Some(J::O(o))
+                    }
                     GenericArgKind::Lifetime(_) => None,
                 })
                 .collect(),
@@ -348,15 +358,108 @@ impl<'tcx> Cx<'tcx> {
                 o.push(("unevaluated", s(format!("{:?}", c.const_))));
             }
         } else {
+            let mut is_promoted = false;
             if let Const::Unevaluated(uv, _) = c.const_ {
                 o.push(("uneval_def", self.did(uv.def)));
                 if let Some(p) = uv.promoted {
                     o.push(("promoted", J::I(p.as_u32() as i128)));
+                    is_promoted = true;
                 }
             }
             o.push(("text", s(format!("{}", c.const_))));
+            if !is_promoted && !t.has_non_region_param() {
+                let v = std::panic::catch_unwind(std::panic::AssertUnwindSafe(|| {
+                    c.const_.eval(tcx, env, c.span).ok().and_then(|cv| self.const_tree(cv, t, 0))
+                }));
+                if let Ok(Some(tree)) = v {
+                    o.push(("value", tree));
+                }
+            }
+        }
+        if is_scalar {
+            if let Const::Ty(_, ct) = c.const_ {
+                if let ty::ConstKind::Param(p) = ct.kind() {
+                    o.push(("param", s(p.name.to_string())));
+                }
+            }
         }
         J::O(o)
+    }
+
+    /// evaluated aggregate constant as a tree: scalars {bits,size,ty}, arrays/tuples/structs {fields:[..]},
+    /// references to such constants {ref: tree}
+    fn const_tree(&self, cv: mir::ConstValue, t: Ty<'tcx>, depth: usize) -> Option<J> {
+        let tcx = self.tcx;
+        if depth > 4 {
+            return None;
+        }
+        match t.kind() {
+            ty::Bool | ty::Char | ty::Int(_) | ty::Uint(_) | ty::Float(_) => {
+                if let mir::ConstValue::Scalar(sc) = cv {
+                    if let Ok(si) = sc.try_to_scalar_int() {
+                        let size = si.size();
+                        return Some(J::O(vec![
+                            ("bits", s(format!("{}", si.to_bits(size)))),
+                            ("size", J::I(size.bytes() as i128)),
+                            ("ty", self.ty(t)),
+                        ]));
+                    }
+                }
+                None
+            }
+            ty::Array(..) | ty::Tuple(..) | ty::Adt(..) => {
+                let d = tcx.try_destructure_mir_constant_for_user_output(cv, t)?;
+                let mut fields = Vec::new();
+                for (fv, ft) in d.fields.iter() {
+                    fields.push(self.const_tree(*fv, *ft, depth + 1)?);
+                }
+                Some(J::O(vec![
+                    ("fields", J::A(fields)),
+                    ("ty", self.ty(t)),
+                    ("variant", match d.variant {
+                        Some(v) => J::I(v.as_u32() as i128),
+                        None => J::Null,
+                    }),
+                ]))
+            }
+            ty::Ref(_, inner, _) => {
+                // pointer to a constant allocation holding an array of scalars
+                if let (mir::ConstValue::Scalar(mir::interpret::Scalar::Ptr(ptr, _)), ty::Array(et, n)) = (cv, inner.kind()) {
+                    let n = n.try_to_target_usize(tcx)?;
+                    let esize = match et.kind() {
+                        ty::Float(f) => f.bit_width() / 8,
+                        ty::Uint(u) => u.bit_width().unwrap_or(64) / 8,
+                        ty::Int(i) => i.bit_width().unwrap_or(64) / 8,
+                        _ => return None,
+                    };
+                    let (prov, offset) = ptr.into_raw_parts();
+                    let alloc = tcx.global_alloc(prov.alloc_id());
+                    let mem = match alloc {
+                        mir::interpret::GlobalAlloc::Memory(m) => m,
+                        _ => return None,
+                    };
+                    let range = rustc_abi::Size::from_bytes(offset.bytes())..rustc_abi::Size::from_bytes(offset.bytes() + n * esize);
+                    let bytes = mem
+                        .inner()
+                        .get_bytes_strip_provenance(&tcx, mir::interpret::AllocRange { start: range.start, size: rustc_abi::Size::from_bytes(n * esize) })
+                        .ok()?;
+                    let mut fields = Vec::new();
+                    for k in 0..(n as usize) {
+                        let mut v: u128 = 0;
+                        for b in 0..(esize as usize) {
+                            v |= (bytes[k * esize as usize + b] as u128) << (8 * b);
+                        }
+                        fields.push(J::O(vec![("bits", s(format!("{}", v))), ("size", J::I(esize as i128)), ("ty", self.ty(*et))]));
+                    }
+                    return Some(J::O(vec![(
+                        "ref",
+                        J::O(vec![("fields", J::A(fields)), ("ty", self.ty(*inner)), ("variant", J::Null)]),
+                    )]));
+                }
+                None
+            }
+            _ => None,
+        }
     }
 
     fn operand(&self, env: TypingEnv<'tcx>, op: &Operand<'tcx>) -> J {
@@ -379,6 +482,10 @@ impl<'tcx> Cx<'tcx> {
                 ("n", match n.try_to_target_usize(tcx) {
                     Some(n) => J::I(n as i128),
                     None => J::Null,
+                }),
+                ("n_param", match n.kind() {
+                    ty::ConstKind::Param(p) => s(p.name.to_string()),
+                    _ => J::Null,
                 }),
             ]),
             Rvalue::Ref(_, bk, p) => J::O(vec![
@@ -666,6 +773,8 @@ impl<'tcx> Cx<'tcx> {
             for p in gg.own_params.iter() {
                 if matches!(p.kind, ty::GenericParamDefKind::Type { .. }) {
                     names.push(s(p.name.to_string()));
+                } else if matches!(p.kind, ty::GenericParamDefKind::Const { .. }) {
+                    names.push(s(format!("const:{}", p.name)));
                 }
             }
         }
